@@ -669,7 +669,7 @@ func kdcLookup(c *engine.Ctx, evals *int64) {
 				for _, tcp := range []bool{false, true} {
 					cfg, err, pn := load(text)
 					if err != nil || pn != "" {
-						engine.Fatal("kdc lookup config does not load: %v %s", err, pn)
+						engine.FailValid("config.NewFromString(valid KDC lookup configuration)", fmt.Errorf("%v %s", err, pn))
 					}
 					want := append([]string{}, cfg.Realms[0].KDC...)
 					for rep := 0; rep < 3; rep++ {
